@@ -60,19 +60,19 @@ func hx(b []byte) string {
 
 type stubCons struct{ cs *chain.ChainService }
 
-func (s *stubCons) SetStateDB(sdb *state.ChainStateDB)                      {}
-func (s *stubCons) IsTransactionValid(tx *types.Tx) bool                    { return true }
-func (s *stubCons) VerifyTimestamp(block *types.Block) bool                 { return true }
-func (s *stubCons) VerifySign(block *types.Block) error                     { return nil }
+func (s *stubCons) SetStateDB(sdb *state.ChainStateDB)                       {}
+func (s *stubCons) IsTransactionValid(tx *types.Tx) bool                     { return true }
+func (s *stubCons) VerifyTimestamp(block *types.Block) bool                  { return true }
+func (s *stubCons) VerifySign(block *types.Block) error                      { return nil }
 func (s *stubCons) IsBlockValid(block *types.Block, best *types.Block) error { return nil }
-func (s *stubCons) Update(block *types.Block)                               {}
-func (s *stubCons) Save(tx consensus.TxWriter) error                        { return nil }
-func (s *stubCons) NeedReorganization(rootNo types.BlockNo) bool            { return true }
-func (s *stubCons) Info() string                                            { return "" }
-func (s *stubCons) GetType() consensus.ConsensusType                        { return consensus.ConsensusDPOS }
-func (s *stubCons) NeedNotify() bool                                        { return true }
-func (s *stubCons) HasWAL() bool                                            { return false }
-func (s *stubCons) IsForkEnable() bool                                      { return true }
+func (s *stubCons) Update(block *types.Block)                                {}
+func (s *stubCons) Save(tx consensus.TxWriter) error                         { return nil }
+func (s *stubCons) NeedReorganization(rootNo types.BlockNo) bool             { return true }
+func (s *stubCons) Info() string                                             { return "" }
+func (s *stubCons) GetType() consensus.ConsensusType                         { return consensus.ConsensusDPOS }
+func (s *stubCons) NeedNotify() bool                                         { return true }
+func (s *stubCons) HasWAL() bool                                             { return false }
+func (s *stubCons) IsForkEnable() bool                                       { return true }
 func (s *stubCons) IsConnectedBlock(block *types.Block) bool {
 	_, err := s.cs.GetBlock(block.BlockHash())
 	return err == nil
@@ -87,16 +87,16 @@ type sink struct {
 	hub  *component.ComponentHub
 }
 
-func (r *sink) GetName() string                            { return r.name }
-func (r *sink) Start()                                     {}
-func (r *sink) Stop()                                      {}
-func (r *sink) Status() component.Status                   { return component.StartedStatus }
-func (r *sink) SetHub(hub *component.ComponentHub)         { r.hub = hub }
-func (r *sink) Hub() *component.ComponentHub               { return r.hub }
-func (r *sink) MsgQueueLen() int32                         { return 0 }
-func (r *sink) Receive(actor.Context)                      {}
-func (r *sink) Tell(m interface{})                         {}
-func (r *sink) Request(m interface{}, sender *actor.PID)   {}
+func (r *sink) GetName() string                          { return r.name }
+func (r *sink) Start()                                   {}
+func (r *sink) Stop()                                    {}
+func (r *sink) Status() component.Status                 { return component.StartedStatus }
+func (r *sink) SetHub(hub *component.ComponentHub)       { r.hub = hub }
+func (r *sink) Hub() *component.ComponentHub             { return r.hub }
+func (r *sink) MsgQueueLen() int32                       { return 0 }
+func (r *sink) Receive(actor.Context)                    {}
+func (r *sink) Tell(m interface{})                       {}
+func (r *sink) Request(m interface{}, sender *actor.PID) {}
 func (r *sink) RequestFuture(m interface{}, timeout time.Duration, tip string) *actor.Future {
 	f := actor.NewFuturePrefix("verif", timeout)
 	f.PID().Tell(component.ErrHubUnregistered)
@@ -106,9 +106,8 @@ func (r *sink) RequestFuture(m interface{}, timeout time.Duration, tip string) *
 // ---------------------------------------------------------------- world, nodes
 
 type acct struct {
-	key   *btcec.PrivateKey
-	addr  []byte
-	nonce uint64 // next nonce the harness believes valid - 1 (confirmed by produced blocks)
+	key  *btcec.PrivateKey
+	addr []byte
 }
 
 type world struct {
@@ -328,13 +327,6 @@ func (w *world) sign(a *acct, body *types.TxBody) types.Transaction {
 func amt(n int64, zeros int) []byte {
 	v := new(big.Int).Mul(big.NewInt(n), new(big.Int).Exp(big.NewInt(10), big.NewInt(int64(zeros)), nil))
 	return v.Bytes()
-}
-
-func must(b []byte, err error) []byte {
-	if err != nil {
-		panic(err)
-	}
-	return b
 }
 
 // ================================================================ Part A1: VoteResult.buildVoteList
@@ -638,7 +630,6 @@ type session struct {
 	no        types.BlockNo
 	contracts []*contractInfo
 	names     []nameInfo
-	staked    map[int]bool
 	history   []string // per block: compact description (for the replay)
 	last      *produced
 	reps      int
@@ -821,7 +812,9 @@ func (s *session) candidates(bi *types.BlockHeaderInfo) ([]cand, []string) {
 			body.Payload = []byte(`{"Name":"v1stake"}`)
 		case k < 72:
 			kind = "voteBP"
-			i = pick(func(i int) bool { return govs[i].staked.Sign() > 0 && (!govs[i].voted[types.OpvoteBP.ID()] || rested(i)) })
+			i = pick(func(i int) bool {
+				return govs[i].staked.Sign() > 0 && (!govs[i].voted[types.OpvoteBP.ID()] || rested(i))
+			})
 			body.Type, body.Recipient = types.TxType_GOVERNANCE, []byte(types.AergoSystem)
 			var args []string
 			seen := map[int]bool{}
@@ -922,7 +915,9 @@ func receiptsBytes(rs *types.Receipts) string {
 	return strings.Join(parts, ",") + "|" + hx(st)
 }
 
-// tieInState: the BP tally of the producer's state holds two candidates with equal votes that agree from byte 7 on
+// tieInState: the BP tally of the state under test holds two candidates with equal votes that agree from byte 7 on
+// AND the real buildVoteList, run repeatedly on that very tally, returns different lists. Only then a block-level
+// mismatch is attributed to class C15-less-tie-candidate-prefix; any other cause stays unclassified.
 func (s *session) tieInState() bool {
 	sdb := s.P.cs.SDB().GetStateDB()
 	if s.last != nil && s.last.bs != nil {
@@ -937,10 +932,26 @@ func (s *session) tieInState() bool {
 		return false
 	}
 	var es []tallyEntry
+	var keys []string
+	var amts []*big.Int
 	for _, v := range vl.Votes {
 		es = append(es, tallyEntry{v.Candidate, new(big.Int).SetBytes(v.Amount)})
+		keys = append(keys, base58.Encode(v.Candidate))
+		amts = append(amts, new(big.Int).SetBytes(v.Amount))
 	}
-	return tieShaped(es, false)
+	if !tieShaped(es, false) {
+		return false
+	}
+	first := ""
+	for r := 0; r < 40; r++ {
+		out, _ := vh.Guard(func() string { return showVotes(system.VerifC02BuildVoteList(keys, amts, false)) })
+		if r == 0 {
+			first = out
+		} else if out != first {
+			return true
+		}
+	}
+	return false
 }
 
 func (s *session) fail(what string, extra map[string]interface{}) {
@@ -1129,7 +1140,7 @@ func (s *session) step() bool {
 
 func runSession(run *vh.Run, label string, hf *config.HardforkConfig, warp bool, nblocks int) {
 	w := newWorld(run, run.Rng.Fork(), hf, label)
-	s := &session{w: w, run: run, rng: w.rng, warp: warp, staked: map[int]bool{}, reps: run.Pick(3, 25)}
+	s := &session{w: w, run: run, rng: w.rng, warp: warp, reps: run.Pick(3, 25)}
 	s.P = w.newNode("P")
 	s.V = w.newNode("V")
 	clean := false
